@@ -39,7 +39,9 @@ pub const ALL_FAULTS: &[FaultKind] = &[
     FaultKind::WriteFull,
     FaultKind::SyncIoErr,
     FaultKind::ReadIoErr,
-    FaultKind::ReadShort,
+    // ReadShort is deliberately NOT injected: SQLITE_IOERR_SHORT_READ tells SQLite "the file ends
+    // here, the rest is zeros", so returning it for an in-range read is silent data corruption,
+    // not a failing storage step (it produced a false alarm under VERIF_SEED=6; see DESIGN §16)
     FaultKind::OpenCantOpen,
     FaultKind::TruncateIoErr,
     FaultKind::DeleteIoErr,
